@@ -1118,9 +1118,22 @@ func (vc *VC) execRange(fr *frame, st *State, x *ast.RangeStmt, label string) *S
 			n = vc.term(vc.evalExpr(fr, st, x.X))
 			n = vc.define("rngn", n)
 		} else if u.Info()&types.IsString != 0 {
-			// byte-wise model of string iteration: only sound for ASCII; flagged
-			vc.errorf(x.Pos(), "range over string (rune decoding) is outside the supported subset")
-			return st
+			// range over a string decodes runes: over-approximated by an arbitrary number of iterations, each
+			// with an arbitrary byte offset inside the string and an arbitrary rune (sound for safety and
+			// for invariants that do not depend on the decoded values)
+			str := vc.term(vc.evalExpr(fr, st, x.X))
+			str = vc.define("rngs", str)
+			ld.cond = func(s *State) Term { return vc.fresh("more", SBool) }
+			ld.pre = func(s *State) {
+				j := vc.fresh("roff", SInt)
+				c := vc.fresh("rune", SInt)
+				vc.assume(s, And(Le(IntLit(0), j), Lt(j, SLen(str)), Le(IntLit(0), c), Le(c, IntLit(0x10FFFF))))
+				bindKV(s, j, c)
+			}
+			init := st.clone()
+			idx = IntLit(0)
+			fr.idxVars[ord] = idx
+			return vc.execLoop(fr, init, ld)
 		}
 	case *types.Array:
 		arr := vc.term(vc.evalExpr(fr, st, x.X))
